@@ -174,12 +174,11 @@ fn('dsplib::RealFftPlan::solve', F, serves=['C01', 'C05', 'C09'], pure=True, ext
                       ('dc', 'res[0].im == 0'),
                       ('done', 'Implies(k0 < i, And(res[k0] == ' + UNT.replace('K', 'k0') + ', res[n_ - k0].re == res[k0].re, res[n_ - k0].im == -res[k0].im))')]}})
 
-fn('dsplib::create_fft_plan', F, key='create_fft_plan', serves=['C01', 'C10'], trusted=True,
-   requires=[('size', 'n >= 1')],
-   notes='assumed: returns a complex plan of size n (the cache in front of it is proved separately: contracts/lru.py)')
-fn('dsplib::RealFftPlan::RealFftPlan', F, serves=['C01', 'C05'], assigns=['this'], extra_env=ENV,
+# (building the half-size complex plan goes through the per-thread cache and may throw with it: contracts/plancache.py)
+fn('dsplib::RealFftPlan::RealFftPlan', F, serves=['C01', 'C05'], assigns=['this', 'cplan_cache'], globals=['cplan_cache'], extra_env=ENV,
    requires=[('size', 'And(n >= 2, n <= 2000000)')],
-   throws='tmod(n, 2) != 0',
+   may_throw=True,
+   ensures_exc=[],
    post_facts=['TRIG8(0)', '-2 * PI * ToReal(IntVal(0)) / ToReal(n) == 0'],
-   ensures=[('invariant', RF_OK), ('size', 'n_ == n'),
+   ensures=[('invariant', RF_OK), ('size', 'n_ == n'), ('even', 'tmod(n, 2) == 0'),
             ('twiddles', 'forall(lambda k: Implies(And(0 <= k, k < tdiv(n, 2)), And(w_[k].re == COS(-2 * PI * ToReal(k) / ToReal(n)), w_[k].im == SIN(-2 * PI * ToReal(k) / ToReal(n)))))')])
